@@ -319,6 +319,18 @@ func Possible(label string, c bool) {
 
 func PossibleAt(label string, k int, c bool) { Possible(fmt.Sprintf("%s[%d]", label, k), c) }
 
+// Premises records whether the premise of a conditional obligation was ever true.
+var Premises = map[string]bool{}
+
+// PossibleIfAt: if the premise is satisfiable then c must be satisfiable too.
+func PossibleIfAt(label string, k int, premise, c bool) {
+	l := fmt.Sprintf("%s[%d]", label, k)
+	mu.Lock()
+	Premises[l] = Premises[l] || premise
+	Possibles[l] = Possibles[l] || c
+	mu.Unlock()
+}
+
 func Reach(label string) {
 	mu.Lock()
 	Reached = append(Reached, label)
